@@ -125,6 +125,11 @@ fn json_typed_schema() -> Schema {
         Field::new("t", DataType::Timestamp(TimeUnit::Millisecond, None), true),
         Field::new_map("m", "entries", Field::new("keys", DataType::Utf8, false), Field::new("values", DataType::Int64, true), false, true),
         Field::new("dec", DataType::Decimal128(10, 2), true),
+        // decoders the base text only reaches after a mutation / cross-splice renames a key
+        Field::new("zz", DataType::Binary, true),
+        Field::new("sv", DataType::Utf8View, true),
+        Field::new("nn", DataType::Null, true),
+        Field::new("ll", DataType::LargeList(std::sync::Arc::new(Field::new("item", DataType::Float32, true))), true),
     ])
 }
 
